@@ -372,6 +372,21 @@ def sc_roll(n, c, sh, e):
     _expect(t, ("elem", "x", ((e - sh) % n,)))
 
 
+def sc_add_astype_narrow(n, c, e):
+    """add(astype(x, int8), astype(y, int8)): two narrowing predecessors fused into the addition"""
+    _start()
+    sx.assume(c <= n)
+    sx.assume(e < n)
+    xp = _xp()
+    x = G.stub_array("x", (n,), (c,))
+    y = G.stub_array("y", (n,), (c,))
+    out = xp.add(xp.astype(x, xp.int8), xp.astype(y, xp.int8))
+    _declared_ok(out, (n,))
+    t, _ = _elem(out, (e,))
+    sx.require(t[0] == "fn" and t[1] == "add", "not-an-addition", str(t))
+    sx.require(anp.term_mult(t, ("x", (e,))) == 1 and anp.term_mult(t, ("y", (e,))) == 1, "wrong-operands", str(t))
+
+
 def sc_unstack(n, c, w, e):
     """unstack a (3, n) array along axis 0 (3 blocks of one row)"""
     _start()
@@ -585,20 +600,49 @@ def sc_argmax(n, c, s, ax):
         raise _Done()
 
 
-def sc_reduce_axis0_widening(kind, n, m, c, c2, s):
-    """reductions over axis 0 of an (n, m) array whose intermediate dtype is WIDER than the input's: sum of int32 / int8 (int64
-    accumulator), mean of float32 ({n: int64, total: float64}), var of float32 -- with skinny chunks the reduced chunk is as
-    large as the input chunk, so the projected memory of the first partial reduce depends on the intermediate dtype"""
-    _start()
-    sx.assume(c <= n)
-    sx.assume(c2 <= m)
-    k = sx.conc(kind)
-    xp = _xp()
-    x = G.stub_array("x", (n, m), (c, c2), dtype=["int32", "float32", "int8", "float32"][k])
-    out = [xp.sum, xp.mean, xp.sum, xp.var][k](x, axis=0, split_every=s)
-    _declared_ok(out, (m,))
-    if MODE == "route":
-        raise _Done()
+_REDUCE_KINDS = {
+    "sum-int32": ("int32", "sum"), "mean-float32": ("float32", "mean"), "sum-int8": ("int8", "sum"), "var-float32": ("float32", "var"), "var-float64": ("float64", "var"),
+    "max-float32": ("float32", "max"), "prod-int8": ("int8", "prod"), "any-bool": ("bool", "any"),
+}
+
+
+def _sc_reduce_axis0(kind):
+    """reductions over axis 0 of an (n, m) array, several with an intermediate dtype WIDER than the input's: sum of int32 / int8 (int64
+    accumulator), mean of float32 ({n: int64, total: float64}), var -- with skinny chunks the reduced chunk is as large as the input
+    chunk, so the projected memory of the first partial reduce depends on the intermediate dtype"""
+    dt, fname = _REDUCE_KINDS[kind]
+
+    def sc(n, m, c, c2, s):
+        _start()
+        sx.assume(c <= n)
+        sx.assume(c2 <= m)
+        xp = _xp()
+        x = G.stub_array("x", (n, m), (c, c2), dtype=dt)
+        out = getattr(xp, fname)(x, axis=0, split_every=s)
+        _declared_ok(out, (m,))
+        if MODE == "route":
+            raise _Done()
+
+    sc.__name__ = f"sc_reduce_axis0_{kind}"
+    return sc
+
+
+def _sc_reduce_1d(kind):
+    """the same reductions over a 1-d array with chunks up to 24 elements: here the block function's own temporaries (e.g. var's
+    `a - mu` and its square, at the accumulator dtype) dominate the reduced chunks"""
+    dt, fname = _REDUCE_KINDS[kind]
+
+    def sc(n, c, s):
+        _start()
+        sx.assume(c <= n)
+        x = G.stub_array("x", (n,), (c,), dtype=dt)
+        out = getattr(_xp(), fname)(x, split_every=s)
+        _declared_ok(out, ())
+        if MODE == "route":
+            raise _Done()
+
+    sc.__name__ = f"sc_reduce_1d_{kind}"
+    return sc
 
 
 def sc_index_stride_full(n, c, st, p):
@@ -620,7 +664,9 @@ EXTRA_SCENARIOS = {
     "linalg.qr": (sc_qr, lambda N: [("n", 1, N + 2), ("m", 1, 3), ("c", 1, N + 2)]),
     "matmul": (sc_matmul, lambda N: [("n", 1, 4 if N <= 6 else 6), ("k", 1, 3), ("m", 1, 2), ("c", 1, 4 if N <= 6 else 6), ("ck", 1, 3)]),
     "argmax": (sc_argmax, lambda N: [("n", 1, N), ("c", 1, N), ("s", 2, 3), ("ax", 0, 1)]),
-    "reduce[axis0-2d,widening]": (sc_reduce_axis0_widening, lambda N: [("kind", 0, 3), ("n", 1, 4), ("m", 1, N), ("c", 1, 2), ("c2", 1, N), ("s", 2, 3)]),
+    **{f"{k}[1d]": (_sc_reduce_1d(k), lambda N: [("n", 1, 48), ("c", 1, 24), ("s", 2, 3)]) for k in ("var-float32", "var-float64", "mean-float32", "sum-int8")},
+    **{f"{k}[axis0-2d]": (_sc_reduce_axis0(k), lambda N: [("n", 1, 4), ("m", 1, N), ("c", 1, 2), ("c2", 1, N), ("s", 2, 3)]) for k in _REDUCE_KINDS},
+    "add[astype-int8]": (sc_add_astype_narrow, lambda N: [("n", 1, N), ("c", 1, N), ("e", 0, N)]),
     "tensordot[2-axes]": (sc_tensordot, lambda N: [("n", 1, 4), ("c", 1, 4), ("order", 0, 1)]),
 }
 
